@@ -656,13 +656,13 @@ ANCHOR_DIGEST = "5607e8053791a606"       # structural digest of `wasserstein` th
 
 
 # source translator (DESIGN.md 3.2): part of the model is regenerated from the source text on every run
-TRUSTED = list(TRUSTED) + [py2lean.trusted_note("wasserstein")]
-PROP_FILES = ["PersimVerif/Props/C02.lean"] + py2lean.prop_files("wasserstein")
+TRUSTED = list(TRUSTED) + [py2lean.trusted_note("wasserstein"), py2lean.trusted_note("wasserstein_assign")]
+PROP_FILES = ["PersimVerif/Props/C02.lean"] + py2lean.prop_files("wasserstein") + py2lean.prop_files("wasserstein_assign")
 
 
 def pre_build(ctx):
     """source translator: regenerate Generated/Src*.lean from PERSIM_ROOT's source"""
-    py2lean.pre_build(ctx, ("wasserstein",))
+    py2lean.pre_build(ctx, ("wasserstein", "wasserstein_assign"))
 
 
 
@@ -961,4 +961,4 @@ MANIFEST = {
     "technique": "Lean 4 theorems over a hand-written model with the solver as a contract parameter + differential correspondence "
                  "with Lean-verified dual certificates",
 }
-MANIFEST["note"] += " " + py2lean.manifest_note("wasserstein")
+MANIFEST["note"] += " " + py2lean.manifest_note("wasserstein") + " " + py2lean.manifest_note("wasserstein_assign")
